@@ -56,32 +56,38 @@ def with_version(init_line, version_tok):
     return re.sub(r"ver=\S+", "ver=" + version_tok, init_line)
 
 
-def experiment(block, p, work, exp_id, new_version=None, mode="kill", max_k=200):
-    """Returns the lines of one K block, or None if the experiment is not applicable."""
+def experiment(block, p, work, exp_id, new_version=None, mode="kill", max_k=400):
+    """The launch that contains position p of the history — its init and every call up to p — is
+    interrupted at each of its mutating file-system calls. Returns the lines of one K block, or None."""
     head = [l for l in block if l.startswith("L ")]
     vtab = [l for l in block if l.startswith("V ")]
     ops = ops_of(block)
     if p >= len(ops):
         return None
-    op = ops[p]
-    if op.startswith("O restart") or op.startswith("O dmg") or op.startswith("O init") or op.startswith("O conc"):
+    q = None
+    for i in range(p, -1, -1):
+        if ops[i].startswith("O init "):
+            q = i
+            break
+        if ops[i].startswith(("O restart", "O dmg", "O conc")):
+            return None                      # the launch must consist of library calls only
+    if q is None or q == p:
         return None
-    init = last_init(ops, p)
-    if init is None:
-        return None
+    launch_ops = ops[q + 1:p + 1]
+    init = ops[q]
     root = os.path.join(work, "crash-%s" % exp_id)
     snap = root + ".snap"
     for d in (root, snap):
         shutil.rmtree(d, ignore_errors=True)
     os.makedirs(root)
-    rc, _, err = run_ops(root, head + ops[:p])
+    rc, _, err = run_ops(root, head + ops[:q])
     if rc != 0:
         shutil.rmtree(root, ignore_errors=True)
         return None
     pre = observe(root)
     shutil.copytree(root, snap, symlinks=True)
     launch_init = with_version(init, new_version) if new_version else init
-    out = ["K %s %s" % (exp_id, " ".join(block[0].split()[2:]))] + head + vtab + ["P " + pre, launch_init, op]
+    out = ["K %s %s" % (exp_id, " ".join(block[0].split()[2:]))] + head + vtab + ["P " + pre, launch_init] + launch_ops
     storage = os.path.join(root, "st0")
     k = 0
     while k < max_k:
@@ -95,13 +101,13 @@ def experiment(block, p, work, exp_id, new_version=None, mode="kill", max_k=200)
             env["VERIF_FS_LOG"] = logf
             if os.path.exists(logf):
                 os.unlink(logf)
-            rc, robs0, err = run_ops(root, [launch_init, op, "O nextn"], env)
+            rc, robs0, err = run_ops(root, [launch_init] + launch_ops + ["O nextn"], env)
             hit = os.path.exists(logf) and sum(1 for _ in open(logf)) > k
             if os.path.exists(logf):
                 os.unlink(logf)
             if not hit:
                 break                  # fewer than k+1 mutating calls: enumeration complete
-            if rc != 0 or len(robs0) != 3:
+            if rc != 0 or len(robs0) != len(launch_ops) + 2:
                 out.append("X k=%d mode=eio | ABNORMAL the process did not survive the I/O error: rc=%d %s" % (k, rc, err.strip().replace("\n", " ")[-300:]))
                 k += 1
                 continue
@@ -110,22 +116,25 @@ def experiment(block, p, work, exp_id, new_version=None, mode="kill", max_k=200)
             if rrc != 0 or len(robs) != 2:
                 out.append("X k=%d mode=eio | %s | RECOVERY-FAILED rc=%d %s" % (k, crash_obs, rrc, rerr.strip().replace("\n", " ")[-300:]))
             else:
-                out.append("X k=%d mode=eio | %s | %s | %s | %s | %s" % (k, crash_obs, launch_init[2:], robs[0], robs[1], robs0[2]))
+                out.append("X k=%d mode=eio | %s | %s | %s | %s | %s" % (k, crash_obs, launch_init[2:], robs[0], robs[1], robs0[-1]))
             k += 1
             continue
-        rc, _, err = run_ops(root, [launch_init, op], env)
+        rc, done, err = run_ops(root, [launch_init] + launch_ops, env)
         if rc == 0:
             break                      # the process survived: k is past its last mutation
+        # the call that was running at death: the completed calls printed their observation
+        started = len(done) - 1        # -1: died inside the initialisation
+        tag = "k=%d mode=%s%s" % (k, mode, (" started=%d" % started) if started >= 0 else "")
         if rc != 137:
-            out.append("X k=%d mode=%s | ABNORMAL rc=%d %s" % (k, mode, rc, err.strip().replace("\n", " ")[-300:]))
+            out.append("X %s | ABNORMAL rc=%d %s" % (tag, rc, err.strip().replace("\n", " ")[-300:]))
             k += 1
             continue
         crash_obs = observe(root)
         rrc, robs, rerr = run_ops(root, [launch_init, "O nextn"])
         if rrc != 0 or len(robs) != 2:
-            out.append("X k=%d mode=%s | %s | RECOVERY-FAILED rc=%d %s" % (k, mode, crash_obs, rrc, rerr.strip().replace("\n", " ")[-300:]))
+            out.append("X %s | %s | RECOVERY-FAILED rc=%d %s" % (tag, crash_obs, rrc, rerr.strip().replace("\n", " ")[-300:]))
         else:
-            out.append("X k=%d mode=%s | %s | %s | %s | %s" % (k, mode, crash_obs, launch_init[2:], robs[0], robs[1]))
+            out.append("X %s | %s | %s | %s | %s" % (tag, crash_obs, launch_init[2:], robs[0], robs[1]))
         k += 1
     out.append("E")
     shutil.rmtree(root, ignore_errors=True)
@@ -200,6 +209,8 @@ def campaign(trace_text, seed, n_experiments, release_change_pct=30, torn_pct=20
         o = ops[p]
         if o.startswith(("O restart", "O dmg", "O init", "O conc", "O auto")):
             continue
+        if p + 1 < len(ops) and rnd.randrange(100) < 60 and not ops[p + 1].startswith(("O restart", "O dmg", "O init", "O conc")):
+            p += 1                           # prefer positions deeper inside a launch
         nv = "9.9.9%2B" + str(rnd.randrange(1, 50)) if rnd.randrange(100) < release_change_pct else None
         r = rnd.randrange(100)
         mode = "torn" if r < torn_pct else ("eio" if r < torn_pct + eio_pct else "kill")
